@@ -534,6 +534,17 @@ func forRuleSpecs(c *enumx.Ctx, visit func(c *enumx.Ctx, s spec)) {
 		}
 		visit(c, spec{List: "exit", Action: "always", Syscalls: []string{sc}})
 	}
+	// (o) the word "all" at every position among specific syscalls, in one comma list and as separate -S options,
+	// once and twice: "all" asks for every syscall wherever it stands
+	for _, ws := range [][]string{{"all", "open"}, {"open", "all"}, {"all", "5"}, {"5", "all"}, {"all", "open", "close"}, {"open", "all", "close"}, {"open", "close", "all"}, {"all", "all"}, {"all", "5", "all"}, {"5", "all", "7"}, {"59", "all"}, {"all", "2047"}} {
+		for _, archF := range [][]filt{nil, {{false, "arch", "=", "b64"}}, {{false, "arch", "=", "b32"}}} {
+			if !c.Mine() {
+				continue
+			}
+			visit(c, spec{List: "exit", Action: "always", Filters: archF, Syscalls: []string{strings.Join(ws, ",")}})
+			visit(c, spec{List: "exit", Action: "never", Filters: archF, Syscalls: ws, Keys: []string{"k"}})
+		}
+	}
 	// (k) string filters whose value names something that EXISTS on this machine (a directory, a file, a
 	// device, a link): the field code is the one of the NAME used (path -> AUDIT_WATCH, dir -> AUDIT_DIR, exe ...),
 	// whatever is on disk
@@ -598,6 +609,30 @@ func forRuleSpecs(c *enumx.Ctx, visit func(c *enumx.Ctx, s spec)) {
 			visit(c, spec{List: "exit", Action: "always", Filters: fs, Syscalls: []string{"open"}, Keys: ks})
 		}
 	}
+	// (n) string-valued and numeric filters interleaved, the key filter at every position, with and without -k keys:
+	// every ordered selection of <=4 out of six filters - the position of a filter among ALL filters and among the
+	// string-valued ones differ as soon as a numeric filter comes first
+	mix := []filt{{false, "uid", "=", "0"}, {false, "path", "=", "/etc/x"}, {false, "a0", "=", "1"}, {false, "exe", "=", "/bin/b"}, {false, "key", "=", "a"}, {true, "uid", "!=", "euid"}}
+	var sel func(cur []filt, used int)
+	sel = func(cur []filt, used int) {
+		if len(cur) > 0 {
+			for _, ks := range [][]string{nil, {"b"}, {"b", "c"}} {
+				if !c.Mine() {
+					continue
+				}
+				visit(c, spec{List: "exit", Action: "always", Filters: append([]filt{}, cur...), Syscalls: []string{"open"}, Keys: ks})
+			}
+		}
+		if len(cur) == 4 {
+			return
+		}
+		for i, f := range mix {
+			if used&(1<<i) == 0 {
+				sel(append(cur, f), used|1<<i)
+			}
+		}
+	}
+	sel(nil, 0)
 	// (i) the same field twice with different (and with equal) values, for every field class
 	twice := [][3]string{{"uid", "0", "1000"}, {"auid", "1000", "unset"}, {"gid", "0", "5"}, {"pid", "1", "2"}, {"a0", "0x1", "0x2"}, {"exit", "0", "-EPERM"}, {"success", "0", "1"}, {"msgtype", "SYSCALL", "1302"},
 		{"perm", "r", "wa"}, {"perm", "x", "rwxa"}, {"filetype", "dir", "file"}, {"exe", "/bin/a", "/bin/b"}, {"subj_user", "u1", "u2"}, {"obj_type", "t1", "t2"}, {"arch", "b64", "b32"}, {"devmajor", "8", "9"}, {"inode", "1", "2"}, {"sessionid", "1", "2"}}
@@ -717,6 +752,73 @@ func forWatchSpecs(c *enumx.Ctx, dir string, visit func(c *enumx.Ctx, w watchSpe
 					keys = append(keys, fmt.Sprintf("wk%d", i))
 				}
 				visit(c, watchSpec{Path: path, Perms: p, Keys: keys, Kind: kind})
+			}
+		}
+	}
+}
+
+// withoutDescriptors runs f while the process cannot obtain a new file descriptor (soft RLIMIT_NOFILE 0: every
+// open, socket, pipe ... fails with EMFILE; descriptors already open keep working): a resource condition of the
+// calling process, which no input value reaches.  What a rule means may not depend on it.
+func withoutDescriptors(f func()) {
+	var old syscall.Rlimit
+	if err := syscall.Getrlimit(syscall.RLIMIT_NOFILE, &old); err != nil {
+		f()
+		return
+	}
+	low := old
+	low.Cur = 0
+	if err := syscall.Setrlimit(syscall.RLIMIT_NOFILE, &low); err != nil {
+		f()
+		return
+	}
+	defer syscall.Setrlimit(syscall.RLIMIT_NOFILE, &old)
+	f()
+}
+
+// setKind makes path a file / directory / link / nothing, whatever it was before.
+func setKind(dir, path, kind string) {
+	_ = os.RemoveAll(path)
+	switch kind {
+	case "file":
+		_ = os.WriteFile(path, []byte("x"), 0o644)
+	case "dir":
+		_ = os.Mkdir(path, 0o755)
+	case "link-to-dir":
+		_ = os.Symlink(filepath.Join(dir, "d"), path)
+	case "link-to-file":
+		_ = os.Symlink(filepath.Join(dir, "f"), path)
+	case "fifo":
+		_ = syscall.Mkfifo(path, 0o644)
+	}
+}
+
+var historyKinds = []string{"missing", "file", "dir", "link-to-dir", "link-to-file", "fifo"}
+
+// forWatchHistories: the file system changes while the process lives: a name is one kind of object when a watch on it
+// is first built and another kind later (every ordered pair and triple of kinds; each history on a name of its own,
+// and all histories once more on ONE shared name): each build answers for the file system as it is then.
+func forWatchHistories(c *enumx.Ctx, dir string, visit func(c *enumx.Ctx, w watchSpec)) {
+	n := 0
+	for _, k1 := range historyKinds {
+		for _, k2 := range historyKinds {
+			for _, k3 := range []string{"", "file", "dir"} {
+				n++
+				if !c.Mine() {
+					continue
+				}
+				for _, name := range []string{fmt.Sprintf("h%d", n), "hshared"} {
+					path := filepath.Join(dir, name)
+					for _, k := range []string{k1, k2, k3} {
+						if k == "" {
+							continue
+						}
+						setKind(dir, path, k)
+						visit(c, watchSpec{Path: path, Perms: "wa", Keys: []string{"hk"}, Kind: k})
+						visit(c, watchSpec{Path: path, Perms: "r", Kind: k})
+					}
+					_ = os.RemoveAll(path)
+				}
 			}
 		}
 	}
@@ -869,5 +971,7 @@ func init() {
 		dir, cleanup := scratch()
 		defer cleanup()
 		forWatchSpecs(c, dir, checkWatchEncoding)
+		forWatchSpecs(c, dir, func(c *enumx.Ctx, w watchSpec) { withoutDescriptors(func() { checkWatchEncoding(c, w) }) })
+		forWatchHistories(c, dir, checkWatchEncoding)
 	}
 }
